@@ -440,6 +440,9 @@ def m_result_top(I, st, args, dest_ty, *r):
                     I.write_loc(st, a.loc, hv)
             except Unsupported:
                 pass
+    if reads_input and getattr(I, "assume_read_ok", False):
+        # partition "the read succeeded" (any byte count, 0 = end of input, included)
+        return EnumV("Result", 0, (pv,), 2, d)
     return EnumV("Result", None, (), 2, d, {0: (pv,), 1: (TopV(err, d),)})
 
 
